@@ -591,7 +591,12 @@ Section Par1Clean.
     induction n as [|n IH]; intros i size acc st slots size' st' H Hinv; cbn [load_vols] in H.
     - injection H as <- <- _. split; [exact Hinv|lia].
     - destruct (io_read (volume_path ix (N.of_nat (S i))) st) as [[b|x|q] st1].
-      + destruct (read_volume md5 b) as [v|x|q]; try discriminate H.
+      + destruct (read_volume md5 b) as [v|x|q]; [| |discriminate H].
+        2:{ (* an unparsable volume: an empty slot, the size is unchanged *)
+            apply IH in H.
+            { destruct H as [A B]. split; [exact A|]. rewrite B, app_length. cbn [length]. lia. }
+            intros y Hin. apply in_app_or in Hin.
+            destruct Hin as [Hin|[E|[]]]; [exact (Hinv y Hin)|discriminate E]. }
         destruct (negb (bytes_eqb (v_sethash_stored v) sh)); [discriminate H|].
         destruct (negb (v_number v =? N.of_nat (S i))); [discriminate H|].
         destruct (Nat.eqb (length (v_data v)) 0) eqn:E0; [discriminate H|].
@@ -834,7 +839,9 @@ Section Par1Clean.
                 read_res (io_fs s2) (volume_path ix (N.of_nat j)) = read_res (io_fs s1) (volume_path ix (N.of_nat j))).
       { intros j Hj. rewrite Hf1, Hf2'. apply Hrd. lia. }
       destruct (read_res (io_fs st) (volume_path ix (N.of_nat (S i)))) as [b|x|q].
-      + destruct (read_volume md5 b) as [v|x|q]; try discriminate H.
+      + destruct (read_volume md5 b) as [v|x|q]; [| |discriminate H].
+        2:{ destruct (IH _ _ _ _ _ _ _ Hs1 Hs2' Hrd' H) as (s3 & E3 & Hs3 & Hf3).
+            exists s3. split; [exact E3|split; [exact Hs3|congruence]]. }
         repeat lazymatch type of H with (if ?c then _ else _) = _ => destruct c; [discriminate H|] end.
         destruct (IH _ _ _ _ _ _ _ Hs1 Hs2' Hrd' H) as (s3 & E3 & Hs3 & Hf3).
         exists s3. split; [exact E3|split; [exact Hs3|congruence]].
